@@ -103,10 +103,17 @@ def realize(node):
     return it
 
 
+class StillUnwrapping(BaseException):
+    """raised by the harness's own hook once an extraction has made far more unwrap calls than the documented guard
+    (100 steps without progress) could allow: the bounded, clock-free way of observing 'it would hang'"""
+
+
 def _unwrap_item(it):
     s = it.spec
     u = s["u"]
     LOG.append(["unwrap", it.name])
+    if len(LOG) > 20000:
+        raise StillUnwrapping("%d hook calls in one extraction" % len(LOG))
     if u == "none":
         return None
     if u == "one":
@@ -117,6 +124,14 @@ def _unwrap_item(it):
         return [realize(c) for c in s["ch"]]
     if u == "empty":
         return ()
+    if u == "emptylist":
+        return []
+    if u == "emptyiter":
+        @yields_frames
+        def nothing():
+            return
+            yield
+        return nothing()
     if u == "iter":
         @yields_frames
         def gen():
